@@ -949,8 +949,9 @@ func earnedFeesSearch(u *universe, out *searchOut) {
 	}
 	replay := func(p []byte) []string {
 		lines := []string{fmt.Sprintf("key fn=GetEarnedFeesSubspace provider=%x", p)}
-		for _, q := range u.providers {
-			if bytes.HasPrefix(types.GetEarnedFeesKey(q, stakeDenom), types.GetEarnedFeesSubspace(p)) {
+		lines = append(lines, fmt.Sprintf("key fn=GetEarnedFeesKey provider=%x denom=%s", p, stakeDenom))
+		for _, q := range u.providers { // the first records of other providers under the same prefix
+			if !bytes.Equal(p, q) && len(lines) < 4 && bytes.HasPrefix(types.GetEarnedFeesKey(q, stakeDenom), types.GetEarnedFeesSubspace(p)) {
 				lines = append(lines, fmt.Sprintf("key fn=GetEarnedFeesKey provider=%x denom=%s", q, stakeDenom))
 			}
 		}
